@@ -81,3 +81,21 @@ package router_identity
 //@     }
 //@   }
 //@ }
+
+// C07 (part): Equal() returns false only for RouterIdentities whose
+// serialisations differ, and true only for serialisations of equal length.
+//@ option C07_RouterIdentityEqualIsByteEquality nocontract KeysAndCert.Bytes
+//@ lemma C07_RouterIdentityEqualIsByteEquality(a []byte, b []byte) {
+//@   r1, _, e1 := ReadRouterIdentity(a)
+//@   r2, _, e2 := ReadRouterIdentity(b)
+//@   if e1 == nil && e2 == nil {
+//@     b1, x1 := r1.KeysAndCert.Bytes()
+//@     b2, x2 := r2.KeysAndCert.Bytes()
+//@     assert(x1 == nil && x2 == nil)
+//@     if r1.Equal(r2) {
+//@       assert(len(b1) == len(b2))
+//@     } else {
+//@       assert(!seqeq(b1, b2))
+//@     }
+//@   }
+//@ }
